@@ -19,7 +19,12 @@ PROP = {
                    "(probed at run time, see notes.gossip_versions). 'valid => applied/relayed' is a diagnostic only "
                    "(keep-alive suppression, zombie/closed-scid caches, rate limits are legitimate). The zombie index "
                    "and the closed-scid cache are not part of the judged snapshot. Taproot (P2TR) funding outputs are "
-                   "not generated. Wrong chain_hash with otherwise valid content is outside the statement (diagnostic)."),
+                   "not generated. Wrong chain_hash with otherwise valid content is outside the statement (diagnostic). "
+                   "channel_update wire bytes/digests come from a harness-side encoder (lnwire's ChannelUpdate1.Encode drops "
+                   "unknown extra TLVs and mutates the message); what a peer would receive is observed with "
+                   "lnwire.WriteMessage as peer/brontide does. Known finding on the pinned tree: an accepted channel_update "
+                   "carrying an unknown TLV is relayed with bytes that differ from the signed ones (key "
+                   "ChannelUpdate:accepted-update-relayed-with-different-signed-bytes)."),
     "design_ref": "DESIGN.md §3 C20",
     "rule": ("One case = one scenario (own keys, own model chain, own gossiper+builder+graph DB) of 40 steps; "
              "evaluations = remote messages judged. A step is non-trivial when it is a byte corruption, or the "
